@@ -588,34 +588,97 @@ def _literal_values(ctx):
 
 
 def _target_check_grounds(ctx):
+    """Every store of a non-None value into the visitor's error slot is judged where it EXECUTES: in the
+    helper-transparent view of each entry point of the NodeVisitor protocol (visit_<Kind>, visit, generic_visit), so
+    that a rejection written once in a shared method of the class is judged once per visitor method that reaches it,
+    under the guards of the helper and of the caller alike.  A rejection site of the class that no entry point reaches
+    in that view must carry the proof in its own method; otherwise its ground is not known (analysis error)."""
     from ..engine.loader import class_methods as _cm
 
     rel = "xonsh/parsers/context_check.py"
+    DECIDER = "_not_assignable"
     m = ctx.repo.module(rel)
+    m.func(DECIDER)  # anchor
     cls = m.cls("ContextCheckingVisitor")
-    n = 0
-    for nm, f in _cm(cls).items():
-        if nm == "__init__":
-            continue
-        cfg = None
-        defs = df.all_defs(f)
-        for a in [x for x in walk_local(f) if isinstance(x, ast.Assign) and any(isinstance(t, ast.Attribute) and t.attr == "error" and unparse(t.value) == "self" for t in x.targets)]:
-            if const_value(a.value, 0) is None:
+
+    def receiver(f):
+        return f.args.args[0].arg if f.args.args else None
+
+    def sites(f, me):
+        """statements of f that store something other than None into <receiver>.error"""
+        out = []
+        for x in walk_local(f):
+            if isinstance(x, ast.Assign):
+                tg, val = x.targets, x.value
+            elif isinstance(x, (ast.AnnAssign, ast.AugAssign)) and x.value is not None:
+                tg, val = [x.target], x.value
+            else:
                 continue
+            flat_t = [y for t in tg for y in (t.elts if isinstance(t, (ast.Tuple, ast.List)) else [t])]
+            if not any(isinstance(t, ast.Attribute) and t.attr == "error" and isinstance(t.value, ast.Name) and t.value.id == me for t in flat_t):
+                continue
+            if isinstance(x, ast.Assign) and const_value(val, 0) is None:
+                continue
+            out.append(x)
+        return out
+
+    def verdict_of_decider(e, defs, seen=frozenset()):
+        """e is the decision function's return value: the call itself, a walrus around it, or a local all of whose
+        definitions are (copies of) such a value - a parameter of an expanded helper is bound by an assignment"""
+        if isinstance(e, ast.NamedExpr):
+            return verdict_of_decider(e.value, defs, seen)
+        if isinstance(e, ast.Call):
+            return call_name(e) == DECIDER
+        if isinstance(e, ast.Name) and e.id not in seen:
+            ds = defs.get(e.id, [])
+            return bool(ds) and all(d.value is not None and verdict_of_decider(d.value, defs, seen | {e.id}) for d in ds)
+        return False
+
+    def decided(a, cfg, defs):
+        for nd in cfg.nodes_of(a):
+            for e, pol in facts_at(cfg, nd):
+                # `<v> is None` false (or `<v>` true: a verdict that is true is not None), <v> the decision function's verdict
+                if isinstance(e, ast.Compare) and len(e.ops) == 1 and isinstance(e.ops[0], (ast.Is, ast.IsNot)):
+                    l, r = e.left, e.comparators[0]
+                    if isinstance(l, ast.Constant) and l.value is None:
+                        l, r = r, l
+                    if isinstance(r, ast.Constant) and r.value is None and pol == isinstance(e.ops[0], ast.IsNot) and verdict_of_decider(l, defs):
+                        return True
+                elif isinstance(e, (ast.Name, ast.NamedExpr)) and pol and verdict_of_decider(e, defs):
+                    return True
+        return False
+
+    DETAIL = "a second ground for rejecting a target: the first such ground that is wrong about nested / starred / subscripted targets turns valid Python into a SyntaxError"
+    methods = _cm(cls, raw=True)
+    entries = {nm: f for nm, f in methods.items() if nm.startswith("visit_") or nm in ("visit", "generic_visit")}
+    n = 0
+    reached = set()
+    for nm, f in entries.items():
+        fl = flat(ctx, f, 3, skip=(DECIDER,))
+        ss = sites(fl, receiver(f))
+        if not ss:
+            continue
+        cfg, defs = CFG(fl), df.all_defs(fl)
+        for a in ss:
             n += 1
-            cfg = cfg or CFG(f)
-            ok = False
-            for nd in cfg.nodes_of(a):
-                for e, pol in facts_at(cfg, nd):
-                    # `<v> is None` false, <v> bound from the decision function
-                    if isinstance(e, ast.Compare) and len(e.ops) == 1 and isinstance(e.ops[0], (ast.Is, ast.IsNot)) and const_value(e.comparators[0], 0) is None and isinstance(e.left, ast.Name):
-                        if pol == isinstance(e.ops[0], ast.IsNot):
-                            ds = defs.get(e.left.id, [])
-                            if ds and all(d.value is not None and isinstance(d.value, ast.Call) and call_name(d.value) == "_not_assignable" for d in ds):
-                                ok = True
-            ctx.ob("R13", f"{rel}:ContextCheckingVisitor.{nm}", f"`{short(a, 60)}` is decided by a non-None verdict of _not_assignable()", ok, key=f"{nm}|rejection-on-other-grounds", where=loc(a), detail=None if ok else "a second ground for rejecting a target: the first such ground that is wrong about nested / starred / subscripted targets turns valid Python into a SyntaxError")
+            reached.add((a.lineno, a.col_offset))
+            ok = decided(a, cfg, defs)
+            ctx.ob("R13", f"{rel}:ContextCheckingVisitor.{nm}", f"`{short(a, 60)}` is decided by a non-None verdict of {DECIDER}()", ok, key=f"{nm}|rejection-on-other-grounds", where=loc(a), detail=None if ok else DETAIL)
+    # rejection sites outside the entry points (shared methods, the constructor): judged above wherever an entry point
+    # reaches them; one that none reaches (call not expandable, dispatch by other means) has to prove itself
+    for nm, f in methods.items():
+        if nm in entries:
+            continue
+        ss = [a for a in sites(f, receiver(f)) if (a.lineno, a.col_offset) not in reached]
+        if not ss:
+            continue
+        cfg, defs = CFG(f), df.all_defs(f)
+        for a in ss:
+            if not decided(a, cfg, defs):
+                raise AnalysisError(f"{rel}:{a.lineno}: ContextCheckingVisitor.{nm} rejects (`{short(a, 50)}`) outside the visitor methods and no visit_* method reaches it in the helper-transparent view: the ground of this rejection is not known")
+            ctx.ob("R13", f"{rel}:ContextCheckingVisitor.{nm}", f"`{short(a, 60)}` is decided by a non-None verdict of {DECIDER}()", True, key=f"{nm}|rejection-on-other-grounds", where=loc(a))
     if n < 3:
-        raise AnalysisError(f"{rel}: only {n} rejection sites found in the target check")
+        raise AnalysisError(f"{rel}: only {n} rejection sites found in the visitor methods of the target check")
     na = m.func("_not_assignable")
     bad = []
     for r in [r for r in walk_local(na) if isinstance(r, ast.Return) and r.value is not None and isinstance(const_value(r.value, None), str)]:
